@@ -313,7 +313,7 @@ def explore(ctx):
                 cb.append((kind, what, ctxt))
     work += [('callback', c) for c in cb]
     hangs = 0
-    for (k, c), vs in zip(work, pmap(_worker, work, limit=4.0)):
+    for (k, c), vs in zip(work, pmap(_worker, work, limit=4.0, confirm=False)):
         if vs == HANG:
             vs = confirm_hang(_worker, (k, c))
         if vs == HANG:
@@ -353,7 +353,7 @@ def search(ctx, proof, res):
         for what in RETURNS:
             for kind in ('fn_returns', 'var', 'listener_sets'):
                 work.append(('callback', (kind, what, ctxt)))
-    for (k, c), vs in zip(work, pmap(_worker, work, limit=4.0)):
+    for (k, c), vs in zip(work, pmap(_worker, work, limit=4.0, confirm=False)):
         if vs == HANG:
             vs = confirm_hang(_worker, (k, c))
         if vs == HANG:
